@@ -324,6 +324,33 @@ def mk(x):
     raise OutOfSubset(f"cannot lift {type(x)}")
 
 
+class SymKey:
+    """A dictionary key that is a symbolic scalar (hashable by its term)."""
+
+    def __init__(self, v):
+        self.v = v
+        self._k = (type(v).__name__, v.e.sexpr())
+
+    def __hash__(self):
+        return hash(self._k)
+
+    def __eq__(self, o):
+        return isinstance(o, SymKey) and self._k == o._k
+
+    def __repr__(self):
+        return f"SymKey({self.v})"
+
+
+def dict_key(v):
+    """Key object for a VDict: the concrete python key, or a SymKey for a symbolic scalar; None if unsupported."""
+    k = conc_key(v)
+    if k is not None or isinstance(v, VNone):
+        return k
+    if isinstance(v, (VStr, VInt, VBytes)) and v.conc is None:
+        return SymKey(v)
+    return None
+
+
 def conc_key(v):
     """Concrete python key for dict/attribute use, or None if not concrete."""
     if isinstance(v, (VInt, VStr, VBytes, VBool)):
